@@ -560,8 +560,10 @@ def run(tier):
 
     ck = Check("C12", tier)
     ck.assumptions += ASSUMPTIONS
-    br = common.build("C12", models=("compose", "rules"), extra_targets=("theories/Properties/C12rules.vo", "theories/Properties/C12dirs.vo"))
-    ck.proofs(br, extra_files=("C12rules", "C12dirs"))
+    br = common.build("C12", models=("compose", "rules", "rules13"),
+                      extra_targets=("theories/Properties/C12rules.vo", "theories/Properties/C12dirs.vo",
+                                     "theories/Properties/C12stream.vo"))
+    ck.proofs(br, extra_files=("C12rules", "C12dirs", "C12stream"))
     if not br.ok:
         return ck.finish()
     m = Model("compose")
@@ -698,7 +700,10 @@ def run(tier):
         ck.assumptions += crulesdir.ASSUMPTIONS
         crulesdir.core(ck, tier, True, budget_s=15 if quick else 200)
         ck.extra["rulesdir_rule"] = ck.rule
-        ck.rule = rule0 + " (concrete rules) see coverage.rules_rule and coverage.rulesdir_rule"
+        # StreamDirectiveOnListField (needs TypeInfo): extracted Valid/RulesStream.v vs the real rule alone / together
+        from . import crules13
+        crules13.core_stream(ck, tier, True, budget_s=10 if quick else 150)
+        ck.rule = rule0 + " (concrete rules) see coverage.rules_rule, coverage.rulesdir_rule and coverage.stream_rule"
     return ck.finish()
 
 
@@ -708,6 +713,9 @@ def replay(path):
     from graphql import build_schema, parse
     d = json.loads(open(path).read())
     print(json.dumps({k: d[k] for k in d if k != "proof_breaks"}, indent=1)[:3000])
+    if d.get("kind") == "stream":
+        from . import crules13
+        return crules13.replay_stream(d)
     if "document" not in d:
         return 0
     sdl = d.get("schema", "")
